@@ -122,6 +122,11 @@ func genProgram(seed int64, flavour string, drained bool, writers int, ntx int) 
 			window := own
 			if flavour == "deep" {
 				lo := (i / 4) * 3 % (nk - 3)
+				if i > 8 && r.Intn(3) == 0 {
+					// revisit an old window: deletes and overwrites of keys whose older versions
+					// have already sunk to the deepest levels
+					lo = r.Intn(lo+1) / 3 * 3
+				}
 				window = own[lo : lo+3]
 			}
 			for j := 0; j < n; j++ {
@@ -444,10 +449,11 @@ type ackState struct {
 	inflight []crashTxn        // at most one per writer
 	acked    int
 	written  map[string]map[string]bool // key -> every value a begun transaction wrote to it
+	lastTxn  map[string]string          // key -> "writer.index" of the acknowledged transaction that wrote it last
 }
 
 func readAck(side string, p crashProgram) ackState {
-	st := ackState{expected: map[string]string{}, written: map[string]map[string]bool{}}
+	st := ackState{expected: map[string]string{}, written: map[string]map[string]bool{}, lastTxn: map[string]string{}}
 	f, err := os.Open(filepath.Join(side, "ack.log"))
 	if err != nil {
 		return st
@@ -484,6 +490,7 @@ func readAck(side string, p crashProgram) ackState {
 					} else {
 						st.expected[k] = v
 					}
+					st.lastTxn[k] = fmt.Sprintf("%d.%d", t.Writer, t.Idx)
 				}
 				st.acked++
 				delete(pending, w)
@@ -538,6 +545,30 @@ func judgeRecovery(st ackState, v verifyOut, p crashProgram, atomic bool) []judg
 				kind = "stale-value"
 			}
 			out = append(out, judgement{"C03", kind, fmt.Sprintf("key %q reads (%q, found=%v) after recovery, acknowledged state is (%q, found=%v) [%d commits acknowledged]", k, got, ok, want, wok, st.acked)})
+		}
+	}
+	if atomic && st.lastTxn != nil {
+		// acknowledged transactions: among the keys whose last acknowledged writer is T (and which are
+		// not being rewritten by an in-flight transaction), either all read T's write or none does
+		okKeys, badKeys := map[string][]string{}, map[string][]string{}
+		for _, k := range p.Keys {
+			t, has := st.lastTxn[k]
+			if !has || infl[k] != nil {
+				continue
+			}
+			got, ok := v.State[k]
+			want, wok := st.expected[k]
+			if ok == wok && got == want {
+				okKeys[t] = append(okKeys[t], k)
+			} else {
+				badKeys[t] = append(badKeys[t], k)
+			}
+		}
+		for t, bad := range badKeys {
+			if good := okKeys[t]; len(good) > 0 {
+				out = append(out, judgement{"C04", "acknowledged-transaction-partially-visible", fmt.Sprintf("acknowledged transaction %s: its writes to %q are visible, its writes to %q are not (they read something else)", t, good, bad)})
+				break
+			}
 		}
 	}
 	if atomic {
@@ -1015,12 +1046,14 @@ func genCrash(focus, tier string, seed int64) []core.Case {
 		if quick {
 			add(2, spec{"multikey", 1, 1, 22, 8, 1})
 			add(1, spec{"bigtxn", 1, 1, 14, 8, 1})
+			add(1, spec{"deep", 1, 1, 36, 8, 1})
 			add(1, spec{"multikey", 0, 1, 22, 8, 2})
 			add(1, spec{"multikey", 0, 2, 12, 8, 2})
 		} else {
 			add(30, spec{"multikey", 1, 1, 40, 16, 1})
 			add(12, spec{"bigtxn", 1, 1, 30, 16, 1})
 			add(6, spec{"bigtxn", 0, 2, 16, 16, 1})
+			add(12, spec{"deep", 1, 1, 60, 16, 1})
 			add(30, spec{"multikey", 0, 1, 40, 16, 1})
 			add(10, spec{"multikey", 0, 3, 20, 16, 1})
 		}
@@ -1100,6 +1133,21 @@ func crashSelfTest() error {
 	}
 	if js := judgeRecovery(st, verifyOut{State: map[string]string{"a": "1", "b": "2"}, Post: map[string]string{"a": "post-a", "b": "2"}}, p, true); len(js) != 1 || js[0].Sig != "post-recovery-commit-not-retained" {
 		return fmt.Errorf("crash judge self-test: lost post-recovery commit not flagged")
+	}
+	st2 := ackState{expected: map[string]string{"a": "1", "b": "2"}, written: map[string]map[string]bool{"a": {"1": true}, "b": {"2": true, "0": true}}, lastTxn: map[string]string{"a": "0.3", "b": "0.3"}}
+	found := false
+	for _, j := range judgeRecovery(st2, verifyOut{State: map[string]string{"a": "1", "b": "0"}, Post: map[string]string{"a": "post-a", "b": "0", "c": "post-c"}}, p, true) {
+		if j.Prop == "C04" && j.Sig == "acknowledged-transaction-partially-visible" {
+			found = true
+		}
+	}
+	if !found {
+		return fmt.Errorf("crash judge self-test: partially visible acknowledged transaction not flagged")
+	}
+	for _, j := range judgeRecovery(st2, verifyOut{State: map[string]string{"a": "0", "b": "0"}, Post: map[string]string{"a": "post-a", "b": "0", "c": "post-c"}}, p, true) {
+		if j.Prop == "C04" {
+			return fmt.Errorf("crash judge self-test: a wholly lost transaction is all-or-nothing, must not be a C04 finding")
+		}
 	}
 	if js := judgeRecovery(st, verifyOut{State: map[string]string{"a": "1", "b": "2"}, Post: map[string]string{"a": "post-a", "c": "post-c"}}, p, true); len(js) != 1 || js[0].Sig != "recovered-value-lost-after-further-commits" {
 		return fmt.Errorf("crash judge self-test: value lost after post-recovery commits not flagged")
